@@ -37,6 +37,8 @@ char   v_last_mode[4];
 size_t v_stdout_pending;
 int    v_stdout_os_writes;
 size_t v_stdio_bufsize = 4096;
+int    v_no_short_reads;               /* harness switch: fread returns everything available or fails */
+int    v_fread_calls, v_fread_full;
 int    v_sock_calls, v_sock_open, v_sock_type, v_sock_domain, v_connect_calls, v_send_calls, v_send_flags, v_close_calls;
 char   v_sock_path[V_PATHCAP];
 int    v_sock_addrlen;
@@ -60,7 +62,7 @@ static void v_copy_bounded(char *dst, size_t cap, const char *src)
 void v_fs_reset(void)
 {
     for (int i = 0; i < V_NFILES; i++) v_st[i].open = 0;
-    v_nw = 0; v_fopen_calls = v_fopen_ok = v_fclose_calls = v_open_streams = 0;
+    v_nw = 0; v_fopen_calls = v_fopen_ok = v_fclose_calls = v_open_streams = 0; v_fread_calls = v_fread_full = 0;
     v_stdout_pending = 0; v_stdout_os_writes = 0;
     v_sock_calls = v_sock_open = v_connect_calls = v_send_calls = v_close_calls = 0;
     v_last_path[0] = '\0'; v_last_mode[0] = '\0'; v_sock_path[0] = '\0';
@@ -211,8 +213,10 @@ size_t fread(void *buf, size_t size, size_t nmemb, FILE *fp)
     struct v_stream *s = &v_st[i];
     size_t want = size * nmemb, avail = s->len - s->pos, n = (want < avail) ? want : avail;
     int c = v_choice();
-    if (c & 1) { s->err = 1; errno = v_errno_choice(); n = (size_t)((unsigned)c >> 1) % (n + 1); }   /* read error after a short count */
-    else if (c & 2) { n = (size_t)((unsigned)c >> 2) % (n + 1); }                                   /* short read without error */
+    v_fread_calls++;
+    if (c & 1) { s->err = 1; errno = v_errno_choice(); n = v_no_short_reads ? 0 : (size_t)((unsigned)c >> 1) % (n + 1); }   /* read error after a short count */
+    else if ((c & 2) && !v_no_short_reads) { n = (size_t)((unsigned)c >> 2) % (n + 1); }                                   /* short read without error */
+    else v_fread_full++;
     for (size_t k = 0; k < n; k++) ((char *)buf)[k] = s->content[s->pos + k];
     s->pos += n;
     if (n < want && !s->err && s->pos >= s->len) s->eof = 1;
